@@ -496,6 +496,15 @@ func (f *TF) bin(op string, a, b *Term) *Term {
 		if ba, ca := splitAdd(a); ba == b {
 			return f.BV(w, ca)
 		}
+		// (x + y) - x = y
+		if a.Op == "bvadd" && len(a.Args) == 2 {
+			if a.Args[0] == b {
+				return a.Args[1]
+			}
+			if a.Args[1] == b {
+				return a.Args[0]
+			}
+		}
 		if ba, ca := splitAdd(a); ba != nil {
 			if bb, cb := splitAdd(b); bb == ba {
 				return f.BV(w, new(big.Int).Sub(ca, cb))
